@@ -42,7 +42,10 @@ ApplyHead(s) ==
     [] it.t = "del" -> [a |-> IF it.k \in DOMAIN s.a THEN Remove(s.a, it.k) ELSE s.a, acc |-> s.acc \ {it.k}, p |-> Tail(s.p)]
 
 Expired(s, k, t) == k \in DOMAIN s.a /\ s.a[k][2] # 0 /\ t > s.a[k][2]
-SweepOne(s, t) == {[a |-> Remove(s.a, k), acc |-> s.acc \ {k}, p |-> s.p] : k \in {x \in DOMAIN s.a : Expired(s, x, t)}}
+\* the sweep may remove an entry AT its expiration instant (DelExpired keeps only entries that expire after now), while
+\* Get hides it only after that instant: at the instant itself both answers are possible
+Sweepable(s, k, t) == k \in DOMAIN s.a /\ s.a[k][2] # 0 /\ t >= s.a[k][2]
+SweepOne(s, t) == {[a |-> Remove(s.a, k), acc |-> s.acc \ {k}, p |-> s.p] : k \in {x \in DOMAIN s.a : Sweepable(s, x, t)}}
 
 Succ(s, t) == (IF s.p # <<>> THEN {ApplyHead(s)} ELSE {}) \cup SweepOne(s, t)
 
